@@ -146,6 +146,29 @@ def render(design):
     lay = design.get("lay", {})
     for c in lay.get("pre", []):
         L.append("# " + c if c else "#")
+    for c in lay.get("junk_pre", []):
+        L.append(c)
+
+    def bb_lines(bb):
+        for c in bb.get("before", []):
+            L.append(c)
+        L.append(".model " + bb["name"])
+
+        def bits(ports):
+            w = []
+            for (n, wd) in ports:
+                if wd == 1 and not bb.get("bracket1"):
+                    w.append(n)
+                else:
+                    w.extend("%s[%d]" % (n, i) for i in range(wd))
+            return w
+        L.append(" ".join([".inputs"] + bits(bb["ins"])))
+        L.append(" ".join([".outputs"] + bits(bb["outs"])))
+        L.append(".blackbox")
+        L.append(".end")
+    for bb in design["bbs"]:
+        if bb["declared"] and bb.get("first"):
+            bb_lines(bb)
     L.append(".model " + design["top"])
     for hi, (kind, refs) in enumerate(design["hdr"]):
         for c in lay.get("hdr_comments", {}).get(str(hi), []):
@@ -190,25 +213,12 @@ def render(design):
         L.append(c)
     L.append(".end")
     for bb in design["bbs"]:
-        if not bb["declared"]:
+        if not bb["declared"] or bb.get("first"):
             continue
-        for c in bb.get("before", []):
-            L.append(c)
-        L.append(".model " + bb["name"])
-
-        def bits(ports):
-            w = []
-            for (n, wd) in ports:
-                if wd == 1 and not bb.get("bracket1"):
-                    w.append(n)
-                else:
-                    w.extend("%s[%d]" % (n, i) for i in range(wd))
-            return w
-        L.append(" ".join([".inputs"] + bits(bb["ins"])))
-        L.append(" ".join([".outputs"] + bits(bb["outs"])))
-        L.append(".blackbox")
-        L.append(".end")
+        bb_lines(bb)
     for c in lay.get("post", []):
+        L.append(c)
+    for c in lay.get("junk_post", []):
         L.append(c)
     text = "\n".join(L) + ("\n" if lay.get("final_newline", True) else "")
     if lay.get("tabs"):
@@ -293,10 +303,16 @@ def _design_of_text(text):
             where = None
     if not models:
         return None
-    top = models[0]
+    # the top model is the first model that is not a black box (the reader first elects the first
+    # .model and re-elects when a later model instantiates it); black boxes before it are `first`
+    tops = [m for m in models if not m["blackbox"]]
+    top = tops[0] if tops else models[0]
+    ti = models.index(top)
     d = {"top": top["name"], "hdr": [[k, (ws if k == "clock" else [_ref(w) for w in ws])] for k, ws in top["hdr"]],
          "stmts": top["stmts"], "bbs": [], "lay": ({"hdr_comments": top["hdr_comments"]} if top["hdr_comments"] else {})}
-    for m in models[1:]:
+    for mi, m in enumerate(models):
+        if m is top:
+            continue
         if not m["blackbox"] or m["stmts"]:
             d["unsupported"] = "second non-blackbox model"
 
@@ -308,7 +324,10 @@ def _design_of_text(text):
                         n, i = split_bit(w)
                         seen[n] = max(seen.get(n, 0), i + 1)
             return [[n, w] for n, w in seen.items()]
-        d["bbs"].append({"name": m["name"], "ins": ports("inputs"), "outs": ports("outputs"), "declared": True})
+        bbd = {"name": m["name"], "ins": ports("inputs"), "outs": ports("outputs"), "declared": True}
+        if mi < ti:
+            bbd["first"] = True
+        d["bbs"].append(bbd)
     return d
 
 
